@@ -23,6 +23,9 @@ of code whose correctness is visible in their shape; those are decided:
                precedes every store into delta[...] (the epsilon loop stores a +1 for an element that is absent from a solution,
                so that only positive adjustments are allowed; a later zero-fill erases it and the adjustment loses its lower
                bound)
+  C18.isocol   the phase-isotope adjustment unknowns form a block with one column per entry of the model's -isotopes list; every site
+               that addresses the block (equation set-up, bounds, dropping phases, printing, checking) takes the offset from an index
+               looped to inv_ptr->isotopes.size() (or a parameter whose callers do), never the position in the phase's own list
 Not decided: mole balance of every element within the uncertainties, the min..max ranges, which subsets the search visits
 (all outcomes of the solver).
 """
@@ -45,7 +48,94 @@ def num(n):
     return None
 
 
+def isocol_rule(P, R):
+    """Column layout of the phase-isotope adjustment unknowns: block col_phase_isotopes holds, for phase i, one column per entry of
+    the model's -isotopes list: column = col_phase_isotopes + i * inv_ptr->isotopes.size() + X.  Every site that addresses the block
+    (row set-up, bounds, dropping phases, printing, checking) must take X from the model-level list `inverse::isotopes`
+    (an index looped to inv_ptr->isotopes.size(), or a parameter whose every caller passes such an index), never the position in
+    the phase's own isotope list: the two orders differ whenever a phase carries a subset."""
+    RULE = "C18.isocol"
+    R.rule(RULE, "every address into the phase-isotope column block uses the index of the model-level -isotopes list", minimum=5)
+
+    def bound_kind(loopcond, var):
+        """for `var < E.size()`: the qualified member E refers to"""
+        c = T.strip_casts(loopcond) if T.is_node(loopcond) else None
+        if not c or c[0] != "Bin" or c[2] not in ("<", "!="):
+            return None
+        a = T.strip_casts(c[3])
+        if not (a[0] == "Ref" and a[3] == var):
+            return None
+        for y in T.walk(c[4]):
+            if y[0] == "Call" and T.callee_name(y) == "size" and T.is_node(y[3]):
+                m = T.strip_casts(y[3])
+                if m[0] == "Member":
+                    return m[2]
+        return None
+
+    def index_kind(f, var, line):
+        best = None
+        for x in T.walk(f["body"]):
+            if x[0] == "For" and x[1] <= line:
+                k = bound_kind(x[3], var)
+                if k and (best is None or x[1] >= best[0]):
+                    best = (x[1], k)
+        return best
+
+    n = 0
+    for f in P.functions.values():
+        if not f.get("body") or not f["q"].startswith("Phreeqc::"):
+            continue
+        for x in T.walk(f["body"]):
+            if not (x[0] == "Bin" and x[2] == "+"):
+                continue
+            l = T.strip_casts(x[3])
+            if not (l[0] == "Bin" and l[2] == "+" and T.strip_casts(l[3])[0] == "Member" and T.strip_casts(l[3])[2] == "Phreeqc::col_phase_isotopes"):
+                continue
+            X = T.strip_casts(x[4])
+            where = dict(file=f["file"], function=f["q"], line=x[1])
+            inst = "%s@%d" % (f["q"].split("::")[-1], x[1])
+            n += 1
+            if X[0] != "Ref":
+                R.violation(RULE, inst, "offset `%s` into the phase-isotope block is not a plain index" % T.text(X)[:40], **where)
+                continue
+            if X[2] == "param":
+                # every caller passes an index over inverse::isotopes
+                pi = X[5] if len(X) > 5 else None
+                callers = []
+                for g in P.functions.values():
+                    if not g.get("body"):
+                        continue
+                    for c in T.calls(g["body"]):
+                        if T.callee_q(c) == f["q"]:
+                            callers.append((g, c))
+                ok = bool(callers)
+                why = []
+                for g, c in callers:
+                    a = T.strip_casts(c[4][pi]) if pi is not None and pi < len(c[4]) else None
+                    k = index_kind(g, a[3], c[1]) if a and a[0] == "Ref" else None
+                    why.append("%s:%d %s" % (g["q"].split("::")[-1], c[1], k[1] if k else "?"))
+                    if not k or k[1] != "inverse::isotopes":
+                        ok = False
+                if ok:
+                    R.ok(RULE, inst, "parameter %s; callers pass an index over inverse::isotopes (%s)" % (X[3], "; ".join(why)))
+                else:
+                    R.violation(RULE, inst, "parameter `%s` is used as the offset but not every caller passes an index over the -isotopes list (%s)" % (X[3], "; ".join(why)), **where)
+                continue
+            k = index_kind(f, X[3], x[1])
+            if k and k[1] == "inverse::isotopes":
+                R.ok(RULE, inst, "`%s` is looped to inv_ptr->isotopes.size() (line %d)" % (X[3], k[0]))
+            elif k:
+                R.violation(RULE, inst, "the offset `%s` is the position in `%s` (loop at line %d), not in the model-level -isotopes list: for a phase that carries only some of the "
+                            "balanced isotopes the term lands in another isotope's column, which has no cost and no bounds, and the printed adjustment no longer closes "
+                            "the isotope mole balance" % (X[3], k[1], k[0]), **where)
+            else:
+                R.anchor_missing(RULE, "%s: no loop bounding the offset `%s` found" % (inst, X[3]))
+    if n < 5:
+        R.anchor_missing(RULE, "only %d addresses into the col_phase_isotopes block found (5 confirmed)" % n)
+
+
 def run(P, R, tier):
+    isocol_rule(P, R)
     R.undecided += ["mole balance of every element within the declared uncertainties; min..max ranges (solver output)",
                     "which subsets of phases the search visits; isotope balances"]
     R.rule("C18.sign", "one sign convention from the input word to the solver's acceptance test: precipitate <= 0, dissolve >= 0, mixing fractions >= 0", minimum=7)
